@@ -7,7 +7,8 @@
    (fault enumeration against the specification executor, predicate spec_verdict).  Proved:
    the local laws from which it follows and the accounting of errors. *)
 From Coq Require Import ZArith List String Bool.
-From TV Require Import Py.Prelude Model.Schema Model.ImplInput Model.ImplExec Proofs.ExecErrors.
+From TV Require Import Py.Prelude Model.Schema Model.ImplInput Model.ImplExec Model.SpecExec Proofs.ExecErrors
+     Proofs.ExecOrigins.
 Import ListNotations.
 Open Scope string_scope.
 Open Scope list_scope.
@@ -62,7 +63,60 @@ Theorem C02_null_data_has_error op root r :
   execute_operation sch doc vs U cfg op root = OVal r -> r_data r = PNone -> r_errors r <> [].
 Proof. apply root_failure_nulls_data. Qed.
 
+(* error accounting against the specification's algorithm (queries and subscriptions' source
+   selection, sibling fields all executed): whenever ExecuteQuery as written in the GraphQL
+   specification (Model/SpecExec.v) yields (data, origins) -- origins = the response paths where a
+   field error ORIGINATED: a raising resolver or type resolver, an error object returned as a value
+   or list item, null at non-null, an unserialisable leaf, a non-list for a list type, an unknown /
+   foreign runtime type, failing arguments -- the implementation model returns that data, every
+   origin is the path of some entry of `errors`, and every entry of `errors` carries a path which
+   is one of the origins: nothing unexplained is nulled, no entry points elsewhere. *)
+Theorem C02_errors_are_exactly_the_specified_origins op root d o :
+  parent_concurrently cfg = true -> o_kind op <> OpMutation ->
+  spec_execute_operation sch doc vs U op root = Some (d, o) ->
+  exists r, execute_operation sch doc vs U cfg op root = OVal r /\ r_data r = d /\
+            (forall p, In p o -> exists e, In e (r_errors r) /\ g_path e = Some p) /\
+            (forall e, In e (r_errors r) -> exists p, g_path e = Some p /\ In p o).
+Proof.
+  intros Hc Hk Hs. destruct (execute_operation_accounts sch doc vs U cfg Hc op root d o Hk Hs) as (r & Hr & Hd & Hp).
+  exists r. split; [exact Hr|]. split; [exact Hd|]. split.
+  - intros p Hin. pose proof (proj2 (Hp (Some p)) (in_map Some _ _ Hin)) as Hm.
+    apply in_map_iff in Hm. destruct Hm as (e & He & Hine). exists e. split; assumption.
+  - intros e Hin. pose proof (proj1 (Hp (g_path e)) (in_map g_path _ _ Hin)) as Hm.
+    apply in_map_iff in Hm. destruct Hm as (p & Hpe & Hinp). exists p. split; [now symmetry|assumption].
+Qed.
+
 End C02.
+
+(* non-vacuity: a resolver returning an error object for two merged response keys of a nullable
+   object: the specification yields data with both nulled and two origins, and the model's errors
+   are located at exactly those two paths *)
+Definition c02_sch : schema :=
+  {| types := [("Query", DObject [] [ {| fd_name := "a"; fd_type := TNamed "T"; fd_args := [] |} ]);
+               ("T", DObject [] [ {| fd_name := "x"; fd_type := TNamed "Int"; fd_args := [] |};
+                                  {| fd_name := "y"; fd_type := TNamed "Int"; fd_args := [] |} ])];
+     query_type := "Query"; mutation_type := None; subscription_type := None;
+     scalars := fun n => if String.eqb n "Int" then Some {| s_input := fun v => Ok v; s_literal := fun v => Ok v; s_output := fun v => Ok v |} else None |}.
+Definition c02_doc : document :=
+  {| operations := [];
+     fragments := [ {| fr_name := "F"; fr_type := "T"; fr_dirs := [];
+                       fr_sels := [SField (1,1)%Z None "y" [] [] []; SField (1,2)%Z (Some "x") "y" [] [] []];
+                       fr_loc := (1,0)%Z |} ] |}.
+Definition c02_U : usercode :=
+  {| has_resolver := fun t f => String.eqb f "a";
+     resolver := fun _ _ _ _ _ => URet (PDict [("x", PInt 1); ("y", PExc (UserErr "boom"))]);
+     type_resolver_kind := fun _ _ _ => TRDefault; type_resolver := fun _ _ _ => URet PNone |}.
+Definition c02_op : operation :=
+  {| o_kind := OpQuery; o_name := None; o_vars := []; o_dirs := [];
+     o_sels := [SField (1,1)%Z None "a" [] [] [SField (1,2)%Z None "x" [] [] []; SSpread (1,3)%Z "F" []]]; o_loc := (1,0)%Z |}.
+Example C02_nonvacuous :
+  spec_execute_operation c02_sch c02_doc [] c02_U c02_op PNone =
+    Some (PDict [("a", PDict [("x", PNone); ("y", PNone)])], [[KName "a"; KName "x"]; [KName "a"; KName "y"]]%list) /\
+  match execute_operation c02_sch c02_doc [] c02_U {| parent_concurrently := true; list_concurrently := true |} c02_op PNone with
+  | OVal r => map g_path (r_errors r) = [Some [KName "a"; KName "x"]; Some [KName "a"; KName "y"]]%list
+  | _ => False
+  end.
+Proof. split; vm_compute; reflexivity. Qed.
 
 Print Assumptions C02_errors_located_below_field.
 Print Assumptions C02_nullable_field_contains.
@@ -70,3 +124,4 @@ Print Assumptions C02_failed_nullable_field_is_null_with_error.
 Print Assumptions C02_failed_non_null_field_raises.
 Print Assumptions C02_execute_never_raises.
 Print Assumptions C02_null_data_has_error.
+Print Assumptions C02_errors_are_exactly_the_specified_origins.
